@@ -649,6 +649,21 @@ func c09History(r *vkit.Run, caseNo int, rg *vkit.Rand) {
 				doClear(9, true)
 			}
 		}()
+		// the engine frees the cache of a shard it finds idle (Cache.Free) without excluding
+		// writers: to the clients a Free is not an operation at all, whatever it overlaps
+		if rg.Chance(1, 3) {
+			nfree := rg.Range(1, 3)
+			wg.Add(1)
+			go func() {
+				defer wg.Done()
+				<-start
+				for i := 0; i < nfree; i++ {
+					c.Free()
+					runtime.Gosched()
+				}
+			}()
+			r.Event("phases_with_concurrent_free", 1)
+		}
 		close(start)
 		wg.Wait()
 		sizeCheck("after_concurrent_phase")
